@@ -138,22 +138,94 @@ func c15entry(origin uintptr) string {
 	return fmt.Sprintf("ebytes=%s e%s", vh.Hex(m[:n]), strings.Replace(run, " rdx=", " erdx=", 1))
 }
 
-func c15apply(oi, ri int) string {
+// c15T gives the lane a method to divert (InstanceMethod takes the type and the method name).
+type c15T struct{ k int }
+
+//go:noinline
+func (c c15T) M(x int) int { return c15helper(x) + c.k }
+
+// c15apply diverts origin oi to replacement ri through one of the entry points of the package, handing origin and
+// replacement over in the form asked for: "v" the function itself, "p" a pointer to a variable holding it.  Whatever the
+// API does with the form — refuse it or accept it — is the observation; when it accepts, the bytes at the origin are
+// decoded and put on record before the diverted function is called.
+//   api: patch | unsafe | tramp | ptr | method
+func c15apply(oi, ri int, api, of, rf string, record func(string)) string {
 	o := c15origins[oi]
+	call, ref := func() int { return o(7) }, c15ref(oi, 7)
 	origin := reflect.ValueOf(o).Pointer()
-	before := c15mem(origin, 32)
 	r := c15repl(ri)
-	fv, code := c15funcval(r)
-	g, err := Patch(o, r)
-	if err != nil {
-		return c15err(err)
+	var rv interface{} = r
+	if api == "method" {
+		m, _ := reflect.TypeOf(c15T{}).MethodByName("M")
+		origin = m.Func.Pointer()
+		call, ref = func() int { return c15T{5}.M(7) }, 7*2+c15g+5
+		add := 1000 * (ri + 1)
+		rm := func(c c15T, x int) int { return x + add + c.k }
+		rv = rm
+		if rf == "p" {
+			rv = &rm
+		}
+	} else if rf == "p" {
+		rv = &r
+	}
+	var ov interface{} = o
+	if of == "p" {
+		ov = &o
+	}
+	// the address of the replacement's function value and the code it points at, taken from the variable itself
+	var fv, code uintptr
+	switch f := rv.(type) {
+	case func(int) int:
+		fv = *(*uintptr)(unsafe.Pointer(&f))
+	case *func(int) int:
+		fv = *(*uintptr)(unsafe.Pointer(f))
+	case func(c15T, int) int:
+		fv = *(*uintptr)(unsafe.Pointer(&f))
+	case *func(c15T, int) int:
+		fv = *(*uintptr)(unsafe.Pointer(f))
+	}
+	code = *(*uintptr)(unsafe.Pointer(fv))
+	rcode := reflect.Indirect(reflect.ValueOf(rv)).Pointer() // the replacement's code according to reflect
+	want := 7 + 1000*(ri+1)
+	if api == "method" {
+		want += 5
+	}
+	before := c15mem(origin, 32)
+	var g *Guard
+	var err error
+	p := vh.Catch(func() string {
+		switch api {
+		case "patch":
+			g, err = Patch(ov, rv)
+		case "unsafe":
+			g, err = UnsafePatch(ov, rv)
+		case "tramp":
+			g, err = Trampoline(ov, rv, nil)
+		case "ptr":
+			g, err = Ptr(origin, rv)
+		case "method":
+			g, err = InstanceMethod(reflect.TypeOf(c15T{}), "M", rv)
+		default:
+			panic("bad api")
+		}
+		return ""
+	})
+	head := fmt.Sprintf("origin=%#x arg=%#x deref=%#x code=%#x", origin, fv, code, rcode)
+	if rf == "p" {
+		head += fmt.Sprintf(" pvar=%#x", reflect.ValueOf(rv).Pointer()) // where the variable holding the replacement lives
+	}
+	if p != "" || err != nil {
+		if p == "" {
+			p = c15err(err)
+		}
+		return fmt.Sprintf("%s refused:%s restored=%v after=%d wantafter=%d", head, p, string(c15mem(origin, 32)) == string(before), call(), ref)
 	}
 	g.Apply()
-	res := fmt.Sprintf("origin=%#x arg=%#x deref=%#x code=%#x %s", origin, fv, code, reflect.ValueOf(r).Pointer(), c15entry(origin))
-	res += fmt.Sprintf(" call=%d want=%d", o(7), r(7))
+	res := fmt.Sprintf("%s %s", head, c15entry(origin))
+	record(res)
+	res += fmt.Sprintf(" call=%d want=%d", call(), want)
 	g.UnpatchWithLock()
-	res += fmt.Sprintf(" restored=%v after=%d wantafter=%d", string(c15mem(origin, 32)) == string(before), o(7), c15ref(oi, 7))
-	return res
+	return res + fmt.Sprintf(" restored=%v after=%d wantafter=%d", string(c15mem(origin, 32)) == string(before), call(), ref)
 }
 
 // ---- hand-assembled origins in a fresh executable page (ABIInternal: argument and result in RAX; leaf, no stack use).
@@ -242,7 +314,7 @@ func c15rawpair(z, pad int) (o, t func(int) int, ref func(int) int) {
 
 // c15step is one real Trampoline()+Apply of origin o through placeholder t: what it leaves at the origin and in the
 // placeholder is decoded (static part, put on record first), then executed.
-func c15step(si int, o, t func(int) int, want int, record func(seg string)) string {
+func c15step(si int, o, t func(int) int, tptr bool, want int, record func(seg string)) string {
 	origin, tramp := reflect.ValueOf(o).Pointer(), reflect.ValueOf(t).Pointer()
 	obytes := c15mem(origin, 96)
 	r := c15repl(si)
@@ -251,7 +323,11 @@ func c15step(si int, o, t func(int) int, want int, record func(seg string)) stri
 	var err error
 	// goom refuses some heads by panicking inside the relocation (e.g. a short Jcc it has no long form for): a refusal,
 	// like an error, is not a statement about the jump back (the relocation itself is property C03)
-	if p := vh.Catch(func() string { g, err = Trampoline(o, r, t); return "" }); p != "" {
+	var tv interface{} = t
+	if tptr {
+		tv = &t
+	}
+	if p := vh.Catch(func() string { g, err = Trampoline(o, r, tv); return "" }); p != "" {
 		return fmt.Sprintf("origin=%#x tramp=%#x refused:%s after=%d", origin, tramp, p, o(7))
 	}
 	if err != nil {
@@ -277,11 +353,16 @@ func c15jumpback(out *vh.Out, idx int, steps []string) {
 	for si, st := range steps {
 		var oi, ti, z, pad int
 		var o, t func(int) int
+		tptr := false
 		var want int
 		switch {
 		case scan(st, "o%d:t%d", &oi, &ti) && oi < len(c15origins) && ti < len(c15tramps):
 			o, t = c15origins[oi], c15tramps[ti]
 			want = o(7) // unpatched; also grows the stack now rather than inside the relocated prologue
+		case scan(st, "o%d:p%d", &oi, &ti) && oi < len(c15origins) && ti < len(c15tramps):
+			o, t = c15origins[oi], c15tramps[ti]
+			tptr = true // the placeholder handed over as &variable, which GetTrampolinePtr dereferences
+			want = o(7)
 		case scan(st, "r%dp%d:n", &z, &pad) && pad >= 1 && pad <= 8:
 			var ref func(int) int
 			o, t, ref = c15rawpair(z, pad)
@@ -296,7 +377,7 @@ func c15jumpback(out *vh.Out, idx int, steps []string) {
 			continue
 		}
 		segs = append(segs, "")
-		seg := c15step(si, o, t, want, func(s string) { segs[len(segs)-1] = s; put(" | running") })
+		seg := c15step(si, o, t, tptr, want, func(s string) { segs[len(segs)-1] = s; put(" | running") })
 		segs[len(segs)-1] = seg
 		put(" | running")
 	}
@@ -344,7 +425,12 @@ func TestVerifC15Site(t *testing.T) {
 		case "patch.apply":
 			oi, _ := strconv.Atoi(op.Toks[2])
 			ri, _ := strconv.Atoi(op.Toks[3])
-			out.Put(op.Idx, "%s", c15apply(oi%len(c15origins), ri))
+			api, of, rf := "patch", "v", "v"
+			if len(op.Toks) >= 7 {
+				api, of, rf = op.Toks[4], op.Toks[5], op.Toks[6]
+			}
+			idx := op.Idx
+			out.Put(idx, "%s", c15apply(oi%len(c15origins), ri, api, of, rf, func(s string) { out.Put(idx, "%s running", s) }))
 		case "patch.jumpback":
 			c15jumpback(out, op.Idx, op.Toks[2:])
 		}
